@@ -101,7 +101,11 @@ func (r *rig) notify(msg []byte) (panicked bool) {
 }
 
 func (r *rig) queryMsg(lt, id int, name string, flags uint32, k int, filters [][]byte) []byte {
-	return quiet.Encode(quiet.TQuery, quiet.MsgQuery{LTime: uint64(lt), ID: uint32(id), Addr: r.origin.IP,
+	return r.queryMsgID(lt, uint32(id), name, flags, k, filters)
+}
+
+func (r *rig) queryMsgID(lt int, id uint32, name string, flags uint32, k int, filters [][]byte) []byte {
+	return quiet.Encode(quiet.TQuery, quiet.MsgQuery{LTime: uint64(lt), ID: id, Addr: r.origin.IP,
 		Port: uint16(r.origin.Port), SourceNode: "origin", Filters: filters, Flags: flags, RelayFactor: uint8(k),
 		Timeout: 30 * time.Second, Name: name, Payload: []byte("p")})
 }
